@@ -71,14 +71,29 @@ class Chunk(AText):
         return "".join({"CR": "\r", "LF": "\n", "X": "x"}[c.kind] for c in self.chars)
 
 
-def _chunk_externals():
+def _chunk_externals(chooser=None):
+    assumed = {}
+
     def text_eq(interp, args, kwargs):
         left, right = args
         if isinstance(right, Chunk) and not isinstance(left, Chunk):
             left, right = right, left
         if isinstance(left, Chunk) and isinstance(right, str):
             if any(c.kind == "X" for c in left.chars):
-                return False if all(ch in "\r\n" for ch in right) else (_ for _ in ()).throw(Undecided("chunk == %r" % right))
+                if all(ch in "\r\n" for ch in right):
+                    return False
+                # a literal with other characters (an end-of-file marker, a byte order mark ...): 'x' stands for every
+                # non-delimiter character, so the comparison may hold - both answers are explored, one per literal
+                same_shape = len(right) == len(left.chars) and all(
+                    (c.kind == "X") == (ch not in "\r\n") and (c.kind == "X" or {"CR": "\r", "LF": "\n"}[c.kind] == ch)
+                    for c, ch in zip(left.chars, right))
+                if not same_shape:
+                    return False
+                if chooser is None:
+                    raise Undecided("chunk == %r" % right)
+                if right not in assumed:
+                    assumed[right] = chooser.choose(("the data characters are", right), [False, True])
+                return assumed[right]
             return left.text() == right
         if isinstance(left, Chunk) and isinstance(right, Chunk):
             return left.chars == right.chars
@@ -104,7 +119,15 @@ def _chunk_externals():
             return Opaque("str", True)
         return NotImplemented
 
-    return {"text_eq": text_eq, "binop": binop, "text_len": lambda i, a, k: len(a[0].chars), "contains": contains}
+    def in_str(interp, args, kwargs):
+        item, container = args
+        if isinstance(item, Chunk) and isinstance(container, str) and all(ch in "\r\n" for ch in container):
+            if any(c.kind == "X" for c in item.chars):
+                return False
+            return item.text() in container
+        raise Undecided("membership of %r in %r" % (item, container))
+
+    return {"text_eq": text_eq, "binop": binop, "text_len": lambda i, a, k: len(a[0].chars), "contains": contains, "in_str": in_str}
 
 
 def _make_stream(ch, max_length):
@@ -224,7 +247,7 @@ def fixed_rows_cell(model, ch, max_length):
     setting = ch.choose("line delimiter", ["any", "\n", "\r", "\r\n", None])
     widths = ch.choose("widths", [[1], [2], [2, 1]])
     stream, consumed, state = _make_stream(ch, max_length)
-    interp = Interp(model, ch, externals=_chunk_externals())
+    interp = Interp(model, ch, externals=_chunk_externals(ch))
     fields = [("f%d" % index, width) for index, width in enumerate(widths)]
     rows = []
     try:
